@@ -138,6 +138,12 @@ def run(ctx):
                 r["ran"] = [1]
                 return
 
+    def wrong_mw(case):
+        for r in case:
+            if r["ev"] == "Lookup" and r["ran"]:
+                r["mw"] += 1
+                return
+
     def refused(case):
         for r in case:
             if r["ev"] == "Register":
@@ -162,6 +168,7 @@ def run(ctx):
         ("another route's handler recorded", wrong_route, two_routes_hit),
         ("a route handler recorded where nothing matches", handler_on_miss,
          lambda c: not c[0]["raw"] and any(r["ev"] == "Lookup" and not r["ran"] for r in c)),
+        ("one middleware run too many in front of the route handler", wrong_mw, two_routes_hit),
         ("an accepted registration recorded as refused", refused, two_routes_hit),
         ("one lookup missing from the recording", dropped_lookup, two_routes_hit),
         ("one registration order missing from the recording", dropped_order,
